@@ -1,108 +1,179 @@
 /-
   Property C17 — EDIF export gives every object a legal, case-insensitively unique identifier and
-  records the original name as a rename.
+  records the original name as a rename; the written name reads back as the original.
 
-  Model: Spydr/Names/Model.lean (`makeValid`, `assignAll` = EdififyNames.make_valid and the writer's
-  pre-pass, as repaired by docs/fixes/names_1..5).  Specification: Spydr/Names/Spec.lean
-  (`checkEdifIdentifier`, `ciEq`, `scopeOk`, `identsDistinct`), written without the model.
+  Model: Spydr/Names/Model.lean (`makeValid`, `assignAll`, `emittedNetIdents`, `nameString`,
+  `readName` = EdififyNames.make_valid, the writer's pre-pass, the per-wire net identifiers of
+  `_output_name_of_cable_wire_`, `_get_name_string_`, the reader's `parse_nameDef/parse_rename`),
+  following the code as repaired by docs/fixes/names_1..9.  Specification: Spydr/Names/Spec.lean
+  (`checkEdifIdentifier`, `ciEq`, `scopeOk`, `identsDistinct`, `netIdents`, `allDistinct`), written
+  without the model.
 
   All theorems hold for ALL names (any characters, any length ≥ 1) and ALL sibling lists, with one
   unavoidable size hypothesis on the theorems that need the conflict loop to end:
-  `others.length < sibBound = 10^200`.  (Identifiers have at most 255 characters, so no algorithm
-  whatsoever can give pairwise distinct identifiers to arbitrarily many siblings; the bound is what
-  the counting argument of `conflictsFix_finished` needs: 4·n + 2 ≤ 10^248.)
+  `fuelFor bits others ≤ sibBound = 10^200` for one call (the fuel is the number of strings a
+  candidate can conflict with, plus one) resp. `totalWeight l ≤ weightBound = 10^100` for a whole
+  scope (`weight e = 2 + number of wires written one by one`).  Identifiers have at most 255
+  characters, so no algorithm whatsoever can serve arbitrarily many siblings; the bound is what the
+  counting argument of `conflictsFix_finished` needs (twice the fuel must stay below `10^248`).
 -/
 import Spydr.Names.LemmasPass
 import Spydr.Names.ModelOld
 
 namespace Spydr.Names
 
-/-- **Legality.** For any non-empty name and any siblings, `make_valid` returns an identifier the
-    EDIF reader accepts.  (No bound, no assumption on the characters.) -/
-theorem makeValid_legal (name : Str) (others : List Sib) (h : name ≠ []) :
-    Spec.checkEdifIdentifier (makeValid name others) = true :=
-  (makeValid_good others h).legal
+/-- **Legality.** For any non-empty name, any wire indices and any siblings, `make_valid` returns an
+    identifier the EDIF reader accepts.  (No bound, no assumption on the characters.) -/
+theorem makeValid_legal (bits : List Nat) (name : Str) (others : List Sib) (h : name ≠ []) :
+    Spec.checkEdifIdentifier (makeValid bits name others) = true :=
+  (makeValid_good bits others h).legal
 
-/-- **Freshness**, given that the conflict-fix recursion ended by itself (the flag the driver
-    reports): the result differs, ignoring case, from the name and the identifier of every other
-    sibling. -/
-theorem makeValid_fresh (name : Str) (others : List Sib)
-    (hfin : (makeValidF name others).2 = true) :
-    ∀ e ∈ others, Spec.ciEq (makeValid name others) e.name = false ∧
-      ∀ i, e.ident = some i → Spec.ciEq (makeValid name others) i = false := by
-  intro e he
-  obtain ⟨h1, h2⟩ := makeValid_fresh_of_finished others hfin e he
-  refine ⟨?_, fun i hi => ?_⟩
-  · rw [Bool.eq_false_iff]; intro hc; exact h1 ((ciEq_iff _ _).mp hc).symm
-  · rw [Bool.eq_false_iff]; intro hc; exact h2 i hi ((ciEq_iff _ _).mp hc).symm
+/-- **Freshness**, given that the conflict-fix loop ended by itself (the flag the driver reports):
+    every identifier the writer emits for the element (`forms`: the identifier, and `<id>_<k>_` for
+    every wire of a bus) differs, ignoring case, from the name of every other sibling and from every
+    identifier written for it. -/
+theorem makeValid_fresh (bits : List Nat) (name : Str) (others : List Sib)
+    (hfin : (makeValidF bits name others).2 = true) :
+    ∀ e ∈ others, ∀ m ∈ forms bits (makeValid bits name others),
+      Spec.ciEq m e.name = false ∧
+      ∀ i, e.ident = some i → ∀ m' ∈ forms e.bits i, Spec.ciEq m m' = false := by
+  intro e he m hm
+  have h := makeValid_fresh_of_finished bits others hfin e he (lower m) (List.mem_map_of_mem hm)
+  refine ⟨?_, fun i hi m' hm' => ?_⟩
+  · rw [Bool.eq_false_iff]; intro hc
+    apply h; rw [(ciEq_iff _ _).mp hc]; simp [theirForms]
+  · rw [Bool.eq_false_iff]; intro hc
+    apply h; rw [(ciEq_iff _ _).mp hc]
+    exact mem_theirForms_of_ident hi (List.mem_map_of_mem hm')
 
-/-- **Termination** of `_conflicts_fix`: any fuel `≥ 2·|others|` is enough (the model uses
-    `2·|others| + 1`).  Proved, not assumed: the candidates' keys advance by 1 or 2 modulo
-    `10^248 + 1`, so `2·|others| + 1` consecutive candidates are pairwise different, and at most
-    `2·|others|` strings can conflict. -/
-theorem conflictsFix_finished (name : Str) (others : List Sib) (fuel : Nat) (hn : name ≠ [])
-    (hb : others.length < sibBound) (hf : 2 * others.length ≤ fuel) :
-    (conflictsFix others fuel (charsFix (lengthFix name))).2 = true :=
-  conflictsFix_finished_aux _ _ _ (Good_charsFix (lengthFix_ne_nil hn)) hf hb
+/-- **Termination** of `_conflicts_fix`: any fuel `≥ fuelFor − 1` is enough (the model uses
+    `fuelFor`).  Proved, not assumed: the candidates' keys advance by 1 or 2 modulo `10^248 + 1`, so
+    `fuelFor` consecutive candidates are pairwise different, and at most `fuelFor − 1` candidates can
+    conflict (each string of a sibling is hit by the candidate itself or by one of its per-wire forms). -/
+theorem conflictsFix_finished (bits : List Nat) (name : Str) (others : List Sib) (fuel : Nat) (hn : name ≠ [])
+    (hb : fuelFor bits others ≤ sibBound) (hf : fuelFor bits others ≤ fuel + 1) :
+    (conflictsFix bits others fuel (charsFix (lengthFix name))).2 = true :=
+  conflictsFix_finished_aux _ _ _ _ (Good_charsFix (lengthFix_ne_nil hn)) hf hb
 
 /-- Freshness without the run-time flag. -/
-theorem makeValid_fresh_bounded (name : Str) (others : List Sib) (hn : name ≠ [])
-    (hb : others.length < sibBound) :
-    ∀ e ∈ others, Spec.ciEq (makeValid name others) e.name = false ∧
-      ∀ i, e.ident = some i → Spec.ciEq (makeValid name others) i = false :=
-  makeValid_fresh name others (makeValidF_finished others hn hb)
+theorem makeValid_fresh_bounded (bits : List Nat) (name : Str) (others : List Sib) (hn : name ≠ [])
+    (hb : fuelFor bits others ≤ sibBound) :
+    ∀ e ∈ others, ∀ m ∈ forms bits (makeValid bits name others),
+      Spec.ciEq m e.name = false ∧
+      ∀ i, e.ident = some i → ∀ m' ∈ forms e.bits i, Spec.ciEq m m' = false :=
+  makeValid_fresh bits name others (makeValidF_finished bits others hn hb)
 
 /-- **Rename recorded** (`_add_rename_property`): an element without identifier gets
     `make_valid`'s result, keeps its name, and is flagged as renamed whenever the two differ. -/
 theorem rename_recorded (x : Sib) (others : List Sib) (hx : x.ident = none) :
-    (assignOne x others).ident = some (makeValid x.name others) ∧
+    (assignOne x others).ident = some (makeValid x.bits x.name others) ∧
     (assignOne x others).name = x.name ∧
-    (makeValid x.name others ≠ x.name → (assignOne x others).rename = true) := by
+    (makeValid x.bits x.name others ≠ x.name → (assignOne x others).rename = true) := by
   rw [assignOne_of_none hx]
   refine ⟨rfl, rfl, ?_⟩
   intro hne
   simp only [Bool.or_eq_true, bne_iff_ne, ne_eq]
   exact Or.inr hne
 
-/-- **The original name is what is written** (`_get_name_string_` after `_add_rename_property`):
-    when the identifier differs from the name the writer emits `rename <identifier> "<name>"` with the
-    untouched original name; when they coincide (and no rename was pending) it emits the identifier. -/
+/-- **What the writer puts into the file** (`_get_name_string_` after `_add_rename_property`): when
+    the identifier differs from the name, the text is `rename <identifier> "` followed by the
+    characters of the name, unchanged and unescaped, and `"`; when they coincide (and no rename was
+    pending) it is the bare identifier.  This describes the text only — whether it reads back is
+    `reread_name` (it does not when the name contains `"`: finding `compose_parse.quote-in-name`). -/
 theorem rename_written (x : Sib) (others : List Sib) (hx : x.ident = none) :
-    (makeValid x.name others ≠ x.name →
+    (makeValid x.bits x.name others ≠ x.name →
       nameString (assignOne x others) =
-        some (true, ['r', 'e', 'n', 'a', 'm', 'e', ' '] ++ makeValid x.name others ++ [' ', '"'] ++ x.name ++ ['"'])) ∧
-    (makeValid x.name others = x.name → x.rename = false →
+        some (true, ['r', 'e', 'n', 'a', 'm', 'e', ' '] ++ makeValid x.bits x.name others ++ [' ', '"'] ++ x.name ++ ['"'])) ∧
+    (makeValid x.bits x.name others = x.name → x.rename = false →
       nameString (assignOne x others) = some (false, x.name)) := by
   rw [assignOne_of_none hx]
   refine ⟨fun hne => ?_, fun heq hr => ?_⟩
-  · have : (x.name == makeValid x.name others) = false := by
+  · have : (x.name == makeValid x.bits x.name others) = false := by
       rw [beq_eq_false_iff_ne]; exact fun h => hne h.symm
     simp [nameString, this]
   · simp [nameString, heq, hr]
 
-/-- **All identifiers distinct after the pre-pass** (induction over the sibling list): if the
-    identifiers that existed before are pairwise different ignoring case, then after the writer's
-    pre-pass every element has an identifier, names are untouched, and all identifiers of the
-    scope are pairwise different ignoring case. -/
-theorem assign_all_distinct (l : List Sib) (hn : ∀ x ∈ l, x.name ≠ []) (hb : l.length ≤ sibBound)
-    (hpre : l.Pairwise fun a b => ∀ i j, a.ident = some i → b.ident = some j → lower i ≠ lower j) :
+/-- **The written name reads back** ("hence the file shows the original names", for the safe
+    alphabet): if the name contains no `"`, the reader's rename handling (`readName`: identifier up
+    to the blank, string token up to the next `"`, no unescaping) applied to what the writer emits
+    for a freshly named element returns exactly the assigned identifier and the original name. -/
+theorem reread_name (x : Sib) (others : List Sib) (hx : x.ident = none) (hn : x.name ≠ [])
+    (hq : ∀ c ∈ x.name, (c != '"') = true) :
+    ∃ t, nameString (assignOne x others) = some t ∧
+      readName t = some (makeValid x.bits x.name others, x.name) := by
+  have hg := makeValid_good x.bits others hn
+  rw [assignOne_of_none hx]
+  simp only [nameString]
+  split
+  · rename_i hc
+    simp only [Bool.and_eq_true, beq_iff_eq] at hc
+    refine ⟨_, rfl, ?_⟩
+    have h1 := hc.1
+    simp only [readName, Bool.not_false, if_true]
+    exact congrArg some (Prod.ext rfl h1.symm)
+  · exact ⟨_, rfl, readName_rename hg hq⟩
+
+/-- what `assign_all_distinct` assumes about identifiers that existed before the pass: everything
+    written for two different elements differs ignoring case (as in a file a reader accepted) -/
+def PreDistinct (l : List Sib) : Prop :=
+  l.Pairwise fun a b => ∀ i j, a.ident = some i → b.ident = some j →
+    ∀ m ∈ forms a.bits i, ∀ m' ∈ forms b.bits j, lower m ≠ lower m'
+
+theorem PreDistinct.formsDiffer2 {l : List Sib} (h : PreDistinct l) : l.Pairwise FormsDiffer2 := by
+  apply List.Pairwise.imp _ h
+  intro a b hab
+  refine ⟨?_, ?_⟩
+  · intro i j hi hj m hm hm'
+    obtain ⟨m0, hm0, rfl⟩ := List.mem_map.mp hm
+    obtain ⟨m1, hm1, he⟩ := List.mem_map.mp hm'
+    exact hab i j hi hj m0 hm0 m1 hm1 he.symm
+  · intro j i hj hi m hm hm'
+    obtain ⟨m0, hm0, rfl⟩ := List.mem_map.mp hm
+    obtain ⟨m1, hm1, he⟩ := List.mem_map.mp hm'
+    exact hab i j hi hj m1 hm1 m0 hm0 he
+
+/-- **All identifiers distinct after the pre-pass** (induction over the sibling list): if what was
+    written for the elements that already had identifiers is pairwise different ignoring case, then
+    after the writer's pre-pass every element has an identifier, names are untouched, and all
+    identifiers of the scope are pairwise different ignoring case. -/
+theorem assign_all_distinct (l : List Sib) (hn : ∀ x ∈ l, x.name ≠ []) (hb : totalWeight l ≤ weightBound)
+    (hpre : PreDistinct l) :
     Spec.identsDistinct (observe (assignAll l)) = true ∧
     (∀ y ∈ assignAll l, y.ident.isSome = true) ∧
     (assignAll l).map (·.name) = l.map (·.name) := by
   have hok : PassOk ([] ++ l) := ⟨by simpa using hn, by simpa using hb⟩
   have hsome : ∀ y ∈ assignAll l, y.ident.isSome = true := assignGo_all_some l [] (by simp)
   refine ⟨identsDistinct_of_pairwise hsome ?_, hsome, by simpa [assignAll] using assignGo_names l []⟩
-  exact assignGo_identsDiffer l [] hok (by simp only [List.nil_append]; exact hpre)
+  exact assignGo_formsDiffer l [] hok (by simp only [List.nil_append]; exact hpre.formsDiffer2)
+
+/-- **Every net of a cell gets its own identifier.** For the cables of one definition (`bits` = the
+    wire indices of a cable written wire by wire, without repetition): after the pre-pass the net
+    identifiers the writer emits — the cable's identifier for a scalar cable, `<identifier>_<k>_`
+    for every wire of a bus — are pairwise different ignoring case. -/
+theorem assign_all_netIdents_distinct (l : List Sib) (hn : ∀ x ∈ l, x.name ≠ [])
+    (hb : totalWeight l ≤ weightBound) (hbits : ∀ x ∈ l, x.bits.Nodup) (hpre : PreDistinct l) :
+    Spec.allDistinct (Spec.netIdents (observe (assignAll l))) = true := by
+  have hok : PassOk ([] ++ l) := ⟨by simpa using hn, by simpa using hb⟩
+  have hsome : ∀ y ∈ assignAll l, y.ident.isSome = true := assignGo_all_some l [] (by simp)
+  rw [netIdents_observe hsome]
+  apply netIdents_distinct_of_pairwise
+  · intro y hy
+    have hb' : y.bits ∈ (assignAll l).map (·.bits) := List.mem_map_of_mem hy
+    rw [show (assignAll l).map (·.bits) = l.map (·.bits) by simpa [assignAll] using assignGo_bits l []] at hb'
+    obtain ⟨z, hz, hzb⟩ := List.mem_map.mp hb'
+    rw [← hzb]; exact hbits z hz
+  · exact assignGo_formsDiffer l [] hok (by simp only [List.nil_append]; exact hpre.formsDiffer2)
 
 /-- **P for a whole scope.** After the pre-pass over any sibling list (elements with or without
     previous identifiers, in any state of their rename flags), every element the writer named has
-    a legal identifier that differs, ignoring case, from the name and the identifier of every other
-    element of the scope, and carries the rename flag if its identifier is not its name. -/
-theorem assign_all_scopeOk (l : List Sib) (hn : ∀ x ∈ l, x.name ≠ []) (hb : l.length ≤ sibBound)
+    a legal identifier, everything written for it differs, ignoring case, from the name and from
+    everything written for every other element of the scope, and it carries the rename flag if its
+    identifier is not its name. -/
+theorem assign_all_scopeOk (l : List Sib) (hn : ∀ x ∈ l, x.name ≠ []) (hb : totalWeight l ≤ weightBound)
     (hfl : ∀ x ∈ l, x.assigned = false) :
     Spec.scopeOk (observe (assignAll l)) = true := by
   have hok : PassOk ([] ++ l) := ⟨by simpa using hn, by simpa using hb⟩
-  apply scopeOk_of_invariants
+  apply scopeOk_of_invariants (assignGo_all_some l [] (by simp))
   · apply assignGo_pairOk l [] hok
     simp only [List.nil_append]
     apply List.Pairwise.imp_of_mem (R := fun _ _ => True)
@@ -117,7 +188,7 @@ theorem assign_all_scopeOk (l : List Sib) (hn : ∀ x ∈ l, x.name ≠ []) (hb 
 
 /-! ### non-vacuity: concrete inputs satisfying the hypotheses, with the values computed -/
 
-/-- `ABC`, `ABc`, `a-b`, `a b` as siblings (the shapes of the open findings) -/
+/-- `ABC`, `ABc`, `a-b`, `a b` as siblings (the shapes of the first findings) -/
 def exSibs : List Sib :=
   [{ name := ['A', 'B', 'C'] }, { name := ['A', 'B', 'c'] }, { name := ['a', '-', 'b'] },
    { name := ['a', ' ', 'b'], ident := some ['a', '_', 'B'], rename := true }]
@@ -126,20 +197,39 @@ example : (assignAll exSibs).map (·.ident) =
     [some ['a','b','c','_','s','d','n','_','1','_'], some ['a','b','c','_','s','d','n','_','2','_'],
      some ['a','_','b','_','s','d','n','_','1','_'], some ['a','_','B']] := by decide
 
-example : (∀ x ∈ exSibs, x.name ≠ []) ∧ exSibs.length ≤ sibBound ∧ (∀ x ∈ exSibs, x.assigned = false) := by
-  refine ⟨by decide, by simp [exSibs, sibBound], by decide⟩
+example : (∀ x ∈ exSibs, x.name ≠ []) ∧ totalWeight exSibs ≤ weightBound ∧ (∀ x ∈ exSibs, x.assigned = false) := by
+  refine ⟨by decide, by simp [exSibs, weightBound, totalWeight, weight], by decide⟩
 
 example : Spec.scopeOk (observe (assignAll exSibs)) = true := by decide
 
-example : (makeValidF ['A', 'B', 'c'] [{ name := ['A', 'B', 'C'] }]) = (['a','b','c','_','s','d','n','_','1','_'], true) := by
+example : (makeValidF [] ['A', 'B', 'c'] [{ name := ['A', 'B', 'C'] }]) = (['a','b','c','_','s','d','n','_','1','_'], true) := by
   decide
 
 set_option maxRecDepth 100000 in
 /-- a 300-character name: truncated to 255 and legal -/
-example : (makeValid (List.replicate 300 'a') []).length = 255 ∧
-    Spec.checkEdifIdentifier (makeValid (List.replicate 300 'a') []) = true := by decide
+example : (makeValid [] (List.replicate 300 'a') []).length = 255 ∧
+    Spec.checkEdifIdentifier (makeValid [] (List.replicate 300 'a') []) = true := by decide
 
-/-! ### the pinned (unrepaired) rules violate the statements — formal record of the open findings -/
+/-- a two-wire cable `A` beside a scalar cable `a_0_` (the shape of finding
+    `compose.bus-bit-identifier-collision`), in both orders -/
+def exCables : List Sib := [{ name := ['A'], bits := [0, 1] }, { name := ['a', '_', '0', '_'] }]
+
+example : PreDistinct exCables ∧ (∀ x ∈ exCables, x.bits.Nodup) ∧ (∀ x ∈ exCables, x.name ≠ []) := by
+  refine ⟨?_, by decide, by decide⟩
+  simp [PreDistinct, exCables]
+
+example : emittedNetIdents (assignAll exCables) =
+    [['a','_','s','d','n','_','1','_','_','0','_'], ['a','_','s','d','n','_','1','_','_','1','_'],
+     ['a','_','0','_']] := by decide
+
+example : emittedNetIdents (assignAll exCables.reverse) =
+    [['a','_','0','_'], ['a','_','s','d','n','_','1','_','_','0','_'],
+     ['a','_','s','d','n','_','1','_','_','1','_']] := by decide
+
+example : readName (true, ['r','e','n','a','m','e',' ','&','_','b',' ','"','-','b','"']) = some (['&','_','b'], ['-','b']) := by
+  decide
+
+/-! ### the unrepaired rules violate the statements — formal record of the findings -/
 
 open Old in
 /-- finding `make_valid.case-insensitive-collision`: `ABC` and `ABc` both keep their spelling. -/
@@ -152,34 +242,34 @@ theorem pinned_violates_scopeOk :
 
 open Old in
 /-- the same with only the case rule unrepaired -/
-example : Spec.scopeOk (observe (Old.assignAll ⟨true, true, false, true⟩
+example : Spec.scopeOk (observe (Old.assignAll ⟨true, true, false, true, true⟩
     [{ name := ['A', 'B', 'C'] }, { name := ['A', 'B', 'c'] }])) = false := by decide
 
 open Old in
 /-- finding `make_valid.dash-kept`: `a-b` is returned unchanged and is not an identifier. -/
 theorem pinned_violates_legal_dash :
     ¬ ∀ (name : Str) (others : List Sib), name ≠ [] →
-        Spec.checkEdifIdentifier (Old.makeValid Rules.pinned name others) = true := by
+        Spec.checkEdifIdentifier (Old.makeValid Rules.pinned [] name others) = true := by
   intro h
   have := h ['a', '-', 'b'] [] (by decide)
   revert this; decide
 
 open Old in
-example : Old.makeValid ⟨true, false, true, true⟩ ['a', '-', 'b'] [] = ['a', '-', 'b'] := by decide
+example : Old.makeValid ⟨true, false, true, true, true⟩ [] ['a', '-', 'b'] [] = ['a', '-', 'b'] := by decide
 
 set_option maxRecDepth 100000 in
 open Old in
 /-- finding `make_valid.length-256`: a 256-character name is returned unchanged (limit is 255). -/
 theorem pinned_violates_legal_length :
     ¬ ∀ (name : Str) (others : List Sib), name ≠ [] →
-        Spec.checkEdifIdentifier (Old.makeValid Rules.pinned name others) = true := by
+        Spec.checkEdifIdentifier (Old.makeValid Rules.pinned [] name others) = true := by
   intro h
   have := h (List.replicate 256 'a') [] (by decide)
   revert this; decide
 
 set_option maxRecDepth 100000 in
 open Old in
-example : (Old.makeValid ⟨false, true, true, true⟩ (List.replicate 300 'a') []).length = 256 := by decide
+example : (Old.makeValid ⟨false, true, true, true, true⟩ [] (List.replicate 300 'a') []).length = 256 := by decide
 
 /-- `a_sdn_111…1_` with 290 digits -/
 def longSuffixName : Str := ['a'] ++ sdnPre ++ List.replicate 290 '1' ++ ['_']
@@ -190,13 +280,24 @@ open Old in
     slice bound negative and the result longer than the input. -/
 theorem pinned_violates_legal_suffix :
     ¬ ∀ (name : Str) (others : List Sib), name ≠ [] →
-        Spec.checkEdifIdentifier (Old.makeValid Rules.pinned name others) = true := by
+        Spec.checkEdifIdentifier (Old.makeValid Rules.pinned [] name others) = true := by
   intro h
   have := h longSuffixName [] (by decide)
   revert this; decide
 
 set_option maxRecDepth 100000 in
 open Old in
-example : 256 < (Old.makeValid ⟨true, true, true, false⟩ longSuffixName []).length := by decide
+example : 256 < (Old.makeValid ⟨true, true, true, false, true⟩ [] longSuffixName []).length := by decide
+
+open Old in
+/-- finding `compose.bus-bit-identifier-collision`: with names_1..7 applied but `_conflicts_good`
+    still blind to the per-wire identifiers, the two-wire cable `A` emits `A_0_`, which equals,
+    ignoring case, the identifier of the scalar cable `a_0_` of the same cell. -/
+theorem unrepaired_violates_netIdents :
+    ¬ ∀ l : List Sib, (∀ x ∈ l, x.name ≠ []) → (∀ x ∈ l, x.bits.Nodup) → PreDistinct l →
+        Spec.allDistinct (Spec.netIdents (observe (Old.assignAll ⟨true, true, true, true, false⟩ l))) = true := by
+  intro h
+  have := h exCables (by decide) (by decide) (by simp [PreDistinct, exCables])
+  revert this; decide
 
 end Spydr.Names
